@@ -4,6 +4,7 @@ package main
 // one scheduler goroutine.  All SPIs are harness fakes that double as observation points.
 
 import (
+	"encoding/json"
 	"context"
 	"crypto/sha256"
 	"errors"
@@ -72,6 +73,14 @@ type validationRec struct {
 	by     string // the proposer the library names to the consumer (must be the leader of the proposal's view)
 }
 
+// inputRec: one input of a node (a delivered message, a node sync, a fired election)
+type inputRec struct {
+	kind  string
+	raw   *interfaces.ConsensusRawMessage
+	prev  *vBlock
+	proof []byte
+}
+
 type commitRec struct {
 	block *vBlock
 	proof []byte
@@ -104,6 +113,8 @@ type cnode struct {
 	proposed    []string
 	proposedBy  []string
 	panicked    string
+	isReplica   bool
+	inputs      []inputRec // every input the node was given, in order: a copy of the node is obtained by replaying them
 
 	// history
 	views       map[uint64]map[uint64]bool // height -> views that have stored messages
@@ -429,12 +440,14 @@ func (n *cnode) step() {
 }
 
 func (n *cnode) deliver(raw *interfaces.ConsensusRawMessage) {
+	n.inputs = append(n.inputs, inputRec{kind: "deliver", raw: raw})
 	n.resetObs()
 	n.worker.MessagesChannel <- raw
 	n.step()
 }
 
 func (n *cnode) sync(prev *vBlock, proof []byte) {
+	n.inputs = append(n.inputs, inputRec{kind: "sync", prev: prev, proof: proof})
 	n.resetObs()
 	var b interfaces.Block
 	if prev != nil {
@@ -451,6 +464,7 @@ func (n *cnode) timeout() bool {
 	if n.regCb == nil {
 		return false
 	}
+	n.inputs = append(n.inputs, inputRec{kind: "timeout"})
 	h, v, cb := n.regH, n.regV, n.regCb
 	n.worker.VerifPostElection(&interfaces.ElectionTrigger{
 		MoveToNextLeader: func() { cb(primitives.BlockHeight(h), primitives.View(v), nil) },
@@ -466,6 +480,31 @@ func (n *cnode) shutdown() {
 	case n.resume <- struct{}{}:
 	default:
 	}
+}
+
+// replica: a copy of node n obtained by replay - a fresh real node with n's identity, keys, committee and consumer, given
+// every input n was given so far (the fakes are deterministic functions of the node's own history, so the copy proposes
+// the same blocks and signs the same messages).  Returns nil when the copy does not end in n's state.
+func (cl *cluster) replica(n *cnode) *cnode {
+	c := cl.newNode(n.idx)
+	c.isReplica = true
+	for _, in := range n.inputs {
+		switch in.kind {
+		case "deliver":
+			c.deliver(in.raw)
+		case "sync":
+			c.sync(in.prev, in.proof)
+		case "timeout":
+			c.timeout()
+		}
+	}
+	a, _ := json.Marshal(n.nodeState())
+	b, _ := json.Marshal(c.nodeState())
+	if string(a) != string(b) {
+		c.shutdown()
+		return nil
+	}
+	return c
 }
 
 func (cl *cluster) close() {
